@@ -201,6 +201,31 @@ def run_shard(sh, rec):
                                     audit.audit(vname, c2, A, rec, rng, real_t, dict(meta, call=f"history[{j}]"))
                                     del c2
                                     rec.count("calls_with_temporary_output_views")
+                            # two views of ONE pool buffer that share their first element and their shape but not their strides
+                            # (pool[:n] then pool[::2]): whatever a wrapper remembers per (address, shape) belongs to the other view
+                            if sk == "random" and layout == "contig":
+                                import copy as _copy
+
+                                pools = {k: util.sentinel_like(rng, tuple(2 * n for n in a_.shape), a_.dtype).copy() for k, a_ in case.kw.items()
+                                         if isinstance(a_, np.ndarray) and a_.dtype.kind != "c" and a_.ndim >= 2}
+                                for j in range(2):
+                                    c2 = _copy.copy(case)
+                                    c2.kw = dict(case.kw)
+                                    for k, pool in pools.items():
+                                        a, role = case.kw[k], case.roles.get(k)
+                                        vw = pool[tuple(slice(0, n) for n in a.shape)] if j == 0 else pool[tuple(slice(0, 2 * n, 2) for n in a.shape)]
+                                        if role == "out":
+                                            vw[...] = util.sentinel_like(rng, a.shape, a.dtype)
+                                        elif role == "scratch":
+                                            vw[...] = (rng.standard_normal(a.shape) * 50).astype(a.dtype)
+                                        elif k in ("char_field", "level_set_field"):
+                                            vw[...] = A._values(a.shape, "unit" if k == "char_field" else "levelset").astype(a.dtype)
+                                        else:
+                                            vw[...] = rng.standard_normal(a.shape).astype(a.dtype)
+                                        c2.kw[k] = vw
+                                    audit.audit(vname, c2, A, rec, rng, real_t, dict(meta, call=f"pool-view[{j}]"))
+                                    del c2
+                                    rec.count("calls_on_views_sharing_address_and_shape_not_strides")
                         if mode == "asan" and done:
                             rec.count("asan_calls_clean")
                         nontrivial = True
